@@ -289,14 +289,22 @@ func (e *penv) evalD(v ssa.Value, depth int) (int64, bool) {
 			return 0, false
 		}
 		_, uns, isInt := intBits(x.X.Type())
-		if !isInt {
-			return 0, false
-		}
 		bo := func(c bool) (int64, bool) {
 			if c {
 				return 1, true
 			}
 			return 0, true
+		}
+		if !isInt {
+			// values of other comparable types (strings, bools) take part only
+			// through abstract identities bound by a rule: equality is decidable
+			switch x.Op {
+			case token.EQL:
+				return bo(a == b)
+			case token.NEQ:
+				return bo(a != b)
+			}
+			return 0, false
 		}
 		switch x.Op {
 		case token.EQL:
